@@ -60,6 +60,8 @@ func realLex(lx interface {
 	return lx.Lex(src), ""
 }
 
+var relexing = false
+
 func checkLex(c *run.Ctx, set lexSet, rl *ref.RefLexer, lx interface {
 	Lex(string) []*token.Token
 }, src string) {
@@ -123,6 +125,28 @@ func checkLex(c *run.Ctx, set lexSet, rl *ref.RefLexer, lx interface {
 	for _, r := range in[prev:] {
 		if !unicode.IsSpace(r) {
 			c.Violation("token-invariant", fmt.Sprintf("lexing %s: trailing %q not covered by a token", q, r), nil)
+			return
+		}
+	}
+	// (a') reference-free law: the lexemes re-joined with single spaces lex to
+	// the same kinds and lexemes
+	if len(toks) > 0 && !relexing {
+		xs := make([]string, len(toks))
+		for i, t := range toks {
+			xs[i] = t.Lexeme
+		}
+		joined := strings.Join(xs, " ")
+		t2, err2 := realLex(lx, joined)
+		same := err2 == "" && len(t2) == len(toks)
+		if same {
+			for i := range toks {
+				if t2[i].Kind != toks[i].Kind || t2[i].Lexeme != toks[i].Lexeme {
+					same = false
+				}
+			}
+		}
+		if !same {
+			c.Violation("relex-law", fmt.Sprintf("lexing %s yields %s, but its lexemes joined by spaces (%q) lex to %s %s", q, realTokStr(toks), joined, realTokStr(t2), err2), nil)
 			return
 		}
 	}
@@ -256,7 +280,7 @@ func init() {
 		ID: "C09", Run: runC09, Level: "exploration",
 		Rule: "every string of length <= 4 (quick) / <= 5 (thorough) over the 16-symbol alphabet {a e x 0 1 . < = - ? : \" ' space newline 晓}, lexed under 4 operator sets (built-in; prefix-overlapping symbolic <,<=,<=>,=,==,===,=>,?:,::,:=,..; identifier-like incl. non-ASCII; a bare set that re-registers . ? :), exhaustive: true for that space; " +
 			"plus random concatenations of 110 token pieces (keywords next to letters / digits / non-ASCII letters, every numeric form and near-miss, strings with escapes, multi-line raw / time / quoted literals followed by more tokens, operator prefixes, Unicode spaces) and shuffled registration orders; " +
-			"monitors = (a) partition / position invariants recomputed from the input, (b) token-by-token equality with an independent maximal-munch reference lexer. distinct = distinct input string",
+			"monitors = (a) partition / position invariants recomputed from the input, (a') reference-free law: lexemes re-joined by single spaces lex to the same tokens, (b) token-by-token equality with an independent maximal-munch reference lexer. distinct = distinct input string",
 		Assume:    []string{"reference lexer implements the documented token forms (DESIGN.md Appendix A, Lexing)"},
 		MinEvents: 50000, EventKey: "inputs_lexed",
 	})
